@@ -270,8 +270,18 @@ def _expand(call: ast.Call, ctx_stmt: ast.stmt, helper, hkind: str, caller) -> O
         # a, b = helper(...): the helper's own locals a, b are overwritten by the call's result anyway
         assigned_here |= {t.id for t in ctx_stmt.targets[0].elts if isinstance(t, ast.Name)}
     arg_reads = {x.id for v in bind.values() for x in ast.walk(v) if isinstance(x, ast.Name)}
+    # `return helper(...)`: nothing of the caller runs afterwards, so a helper local that is bound (by a plain top-level
+    # assignment) before the helper reads it may share its name with a caller local that is dead by then
+    fresh: Set[str] = set()
+    if isinstance(ctx_stmt, ast.Return) and not any(isinstance(n, ast.Try) for n in ast.walk(caller)):
+        seen: Set[str] = set()
+        for st in helper.body:
+            reads = {n.id for n in ast.walk(st) if isinstance(n, ast.Name) and isinstance(n.ctx, ast.Load)}
+            if isinstance(st, ast.Assign) and len(st.targets) == 1 and isinstance(st.targets[0], ast.Name) and st.targets[0].id not in seen | reads:
+                fresh.add(st.targets[0].id)
+            seen |= {n.id for n in ast.walk(st) if isinstance(n, ast.Name)}
     for loc in stored - set(bind):
-        if loc in caller_names and not (loc in assigned_here and loc not in arg_reads):
+        if loc in caller_names and not (loc in assigned_here and loc not in arg_reads) and not (loc in fresh and loc not in arg_reads):
             renames[loc] = f"{loc}__{helper.name.strip('_')}"
     body = [copy.deepcopy(s) for s in helper.body if not (isinstance(s, ast.Expr) and isinstance(s.value, ast.Constant) and isinstance(s.value.value, str))]
     sub = _Sub(subst, renames)
@@ -593,6 +603,18 @@ def _expression_helper(fn) -> Optional[ast.AST]:
         if any(isinstance(n, (ast.NamedExpr, ast.Lambda)) for n in ast.walk(body[0].value)):
             return None
         return body[0].value
+    # `if c: return A` followed by `return B` (or an else branch returning B): the conditional expression A if c else B
+    if len(body) in (1, 2) and isinstance(body[0], ast.If) and len(body[0].body) == 1 and isinstance(body[0].body[0], ast.Return) and body[0].body[0].value is not None:
+        other = None
+        if len(body) == 2 and not body[0].orelse and isinstance(body[1], ast.Return) and body[1].value is not None:
+            other = body[1].value
+        elif len(body) == 1 and len(body[0].orelse) == 1 and isinstance(body[0].orelse[0], ast.Return) and body[0].orelse[0].value is not None:
+            other = body[0].orelse[0].value
+        if other is not None:
+            e = ast.IfExp(test=copy.deepcopy(body[0].test), body=copy.deepcopy(body[0].body[0].value), orelse=copy.deepcopy(other))
+            if any(isinstance(n, (ast.NamedExpr, ast.Lambda, ast.Yield, ast.Await)) for n in ast.walk(e)):
+                return None
+            return ast.fix_missing_locations(ast.copy_location(e, body[0]))
     # straight-line temporaries followed by `return <expression>`: the temporaries read through (each bound once by a plain
     # assignment, only read afterwards, its value free of calls that could draw random numbers or mutate)
     if len(body) >= 2 and isinstance(body[-1], ast.Return) and body[-1].value is not None and all(
@@ -613,7 +635,8 @@ def _expression_helper(fn) -> Optional[ast.AST]:
             if n_reads > 1 and any(isinstance(n, ast.Call) and ast.unparse(n.func) not in PURE_CALLS for n in ast.walk(val)):
                 return None
             # capture: a comprehension of the remaining expression must not bind a name the value reads
-            vfree = {n.id for n in ast.walk(val) if isinstance(n, ast.Name)}
+            # (names the value binds in comprehensions of its own are not free in it)
+            vfree = _free_in(val)
             if _bound_in(expr) & vfree:
                 return None
             expr = _Sub({nm: val}, {}).visit(expr)
@@ -624,6 +647,22 @@ def _expression_helper(fn) -> Optional[ast.AST]:
             return None
         return ast.fix_missing_locations(expr)
     return None
+
+
+def _free_in(e: ast.AST) -> Set[str]:
+    """Names read in e outside every comprehension of e that binds them."""
+    COMP = (ast.ListComp, ast.SetComp, ast.GeneratorExp, ast.DictComp)
+    out: Set[str] = set()
+
+    def go(n, bound):
+        if isinstance(n, COMP):
+            bound = bound | {x.id for g in n.generators for x in ast.walk(g.target) if isinstance(x, ast.Name)}
+        if isinstance(n, ast.Name) and n.id not in bound:
+            out.add(n.id)
+        for c in ast.iter_child_nodes(n):
+            go(c, bound)
+    go(e, frozenset())
+    return out
 
 
 def _bound_in(e: ast.AST) -> Set[str]:
